@@ -92,9 +92,13 @@ def run(ctx: Ctx) -> None:
 
     # (a) arrays vs elements
     coq_cases, impl_rows = [], []
-    for code, (n, src, g) in ARRAYS.items():
+    # ... from the device that normally broadcasts them AND from devices of every other type in the same (self-addressed) shape: whether a
+    # payload is an array is decided by verb, code and length, not by who sent it (a programmer or a thermostat relaying a controller's array)
+    other_types = ["01", "02", "03", "04", "07", "10", "13", "18", "23", "30", "34"]
+    for code, (n, src0, g) in ARRAYS.items():
+      for src in [src0] + [f"{t}:1{int(t):02d}999" for t in other_types if t != src0[:2]]:
         for k in (1, 2, 3, 4, 5, 8):
-            for _ in range(40 if thorough else 4):
+            for _ in range((40 if thorough else 4) if src == src0 else 1):
                 idxs = rng.sample(range(0, 8), k)
                 es = [g(rng, i) for i in idxs]
                 line = f"045  I --- {src} --:------ {src} {code} {len(es) * n:03d} {''.join(es)}"
@@ -102,17 +106,21 @@ def run(ctx: Ctx) -> None:
                 if len(es) * n > 48 or not re.match(CODES_SCHEMA[code][" I"], "".join(es)):
                     continue          # not a payload the schema regex accepts (e.g. at most 2 x 2249, 4 x 22C9)
                 singles = []
-                for e in es:
+                for e in es:          # each element on its own, as the device that normally reports it sends it
                     try:
-                        singles.append(decode(f"045  I --- {src} --:------ {src} {code} {n:03d} {e}"))
+                        singles.append(decode(f"045  I --- {src0} --:------ {src0} {code} {n:03d} {e}"))
                     except Exception as err:  # noqa: BLE001
                         singles.append(("EXC", type(err).__name__))
                 try:
                     arr = decode(line)
                 except Exception as err:  # noqa: BLE001
+                    if src != src0:
+                        continue          # the library may refuse an array from an unusual sender; what it does decode must be element-wise
                     if not any(isinstance(x, tuple) for x in singles):     # every element decodes on its own, the array does not
                         ctx.violation(f"array-not-decodable-though-its-elements-are:{code}:{type(err).__name__}", f"{line}: {err}", {"line": line}, "input")
                     continue
+                if src != src0 and k == 1:
+                    continue          # one element from an unusual sender is not an array (and what its first byte means depends on the sender)
                 if any(isinstance(x, tuple) for x in singles):
                     ctx.violation(f"array-decodes-though-an-element-does-not:{code}", f"{line} decodes, but one of its elements on its own does not: {singles}", {"line": line}, "input")
                     continue
@@ -120,7 +128,11 @@ def run(ctx: Ctx) -> None:
                 if k > 1 and (not isinstance(arr, list) or len(arr) != k):
                     ctx.violation(f"array-is-not-a-list-of-its-elements:{code}", f"{line} decodes to {str(arr)[:300]}", {"line": line, "decoded": str(arr)}, "input")
                     continue
-                if json.dumps(as_list(arr), sort_keys=True, default=str) != json.dumps(flat, sort_keys=True, default=str):
+                def norm(ds):         # the name of the index key is the sender's business (zone_idx / ufx_idx / domain_id), its value is the frame's
+                    if src == src0:
+                        return ds
+                    return [{("idx" if kk in ("zone_idx", "domain_id", "ufh_idx", "ufx_idx") else kk): vv for kk, vv in d.items()} if isinstance(d, dict) else d for d in ds]
+                if json.dumps(norm(as_list(arr)), sort_keys=True, default=str) != json.dumps(norm(flat), sort_keys=True, default=str):
                     ctx.violation(f"array-differs-from-its-elements:{code}", f"{line}: array {str(as_list(arr))[:300]} vs elements {str(flat)[:300]}",
                                   {"line": line, "array": str(arr), "elements": str(flat)}, "input")
                 for e, d in zip(es, as_list(arr)):
@@ -248,7 +260,7 @@ def run(ctx: Ctx) -> None:
                 continue
             key = next((k for k in reversed(path) if not k.isdigit()), "")
             if RATIO_KEYS.search(key) and not 0.0 <= v <= 1.0 and "fault" not in key:
-                ctx.violation(f"ratio-out-of-range:{code}:{key}", f"{ln}: {key} = {v}", {"line": ln, "payload": js[:400]}, "input")
+                ctx.violation(f"ratio-out-of-range:{code}:{key}={v}", f"{ln}: {key} = {v}", {"line": ln, "payload": js[:400]}, "input")
             if TEMP_KEYS.search(key) and not key.startswith("_") and isinstance(v, float) and not -273.15 <= v <= 327.67:
                 ctx.violation(f"temperature-out-of-range:{code}:{key}", f"{ln}: {key} = {v}", {"line": ln, "payload": js[:400]}, "input")
     # ---- byte sweep around real-world packets: every byte of a decodable packet that carries a ratio or a temperature takes
@@ -279,7 +291,7 @@ def run(ctx: Ctx) -> None:
             continue
         if any((RATIO_KEYS.search(k) or TEMP_KEYS.search(k)) for path, v in walk(p) for k in path if not k.isdigit()):
             seeds.setdefault(key, []).append(ln)
-    vals = list(range(256)) if thorough else [0x00, 0x01, 0x32, 0x63, 0x64, 0x65, 0x7E, 0x7F, 0x80, 0xC7, 0xC8, 0xC9, 0xEE, 0xEF, 0xF0, 0xFE, 0xFF, rng.randrange(256)]
+    vals = list(range(256)) if thorough else [0x00, 0x01, 0x32, 0x63, 0x64, 0x65, 0x7E, 0x7F, 0x80, 0xC7, 0xC8, 0xC9, 0xE5, 0xE6, 0xE7, 0xEE, 0xEF, 0xF0, 0xFE, 0xFF, rng.randrange(256)]
     n_sweep = 0
     for key, lns in sorted(seeds.items()):
         for ln in lns:
@@ -297,7 +309,7 @@ def run(ctx: Ctx) -> None:
                             continue
                         k = next((x for x in reversed(path) if not x.isdigit()), "")
                         if RATIO_KEYS.search(k) and not 0.0 <= v <= 1.0 and "fault" not in k:
-                            ctx.violation(f"ratio-out-of-range:{key[0]}:{k}", f"{alt}: {k} = {v}", {"line": alt, "payload": str(p)[:400], "swept_from": ln}, "input")
+                            ctx.violation(f"ratio-out-of-range:{key[0]}:{k}={v}", f"{alt}: {k} = {v}", {"line": alt, "payload": str(p)[:400], "swept_from": ln}, "input")
                         if TEMP_KEYS.search(k) and not k.startswith("_") and isinstance(v, float) and not -273.15 <= v <= 327.67:
                             ctx.violation(f"temperature-out-of-range:{key[0]}:{k}", f"{alt}: {k} = {v}", {"line": alt, "payload": str(p)[:400], "swept_from": ln}, "input")
             ctx.case(("sweep", ln), True, "decode:byte-sweep-seed")
